@@ -80,7 +80,20 @@ def _run_bounded(task):
         out['secs'] = round(time.time() - t0, 2)
         out['name'] = b['name']
         return out
-    except Exception:
+    except Exception as e:
+        # an exception the stand-in did not anticipate.  Raised INSIDE the code under test while a scenario of the property ran,
+        # it is the code's behaviour on that scenario - reported as a failure of the stand-in (the traceback is the evidence; the
+        # scenario itself is not known here, hence 'no-failing-input-found'); raised in the harness itself it is a checker error
+        tb = traceback.extract_tb(e.__traceback__)
+        last = tb[-1].filename if tb else ''
+        if last.startswith(os.path.join(REPO, '')):
+            try:
+                name = load_spec(modname, tier).bounded[idx]['name']
+            except Exception:
+                name = 'bounded#%d' % idx
+            return {'name': name, 'tool': 'bounded stand-in (ended by an exception raised in the code under test)', 'bound': 'n/a', 'evaluations': 1,
+                    'failures': [{'function': '%s:%d %s' % (os.path.relpath(last, REPO), tb[-1].lineno, tb[-1].name), 'clause': 'unexpected-exception', 'input': None,
+                                  'no_input': True, 'detail': '%s: %s\n%s' % (type(e).__name__, e, ''.join(traceback.format_tb(e.__traceback__)[-6:]))}]}
         return {'name': 'bounded#%d' % idx, 'crash': traceback.format_exc()}
 
 
@@ -252,7 +265,7 @@ def finish(spec, modname, tier, seed, reports, bounded, t0, write_ledger=False):
                 continue
             fn = os.path.join(OUT or VERIF, 'replays', '%s_%s.json' % (pid, safe(b['name'] + '_' + str(fl.get('clause', '')))))
             json.dump({'property': pid, 'bounded_check': b['name'], 'failure': fl, 'repo': REPO}, open(fn, 'w'), indent=1, default=str)
-            violations.append(('%s/%s/%s' % (pid, b['name'], fl.get('clause', '')), fn, ''))
+            violations.append(('%s/%s/%s' % (pid, b['name'], fl.get('clause', '')), fn, ' no-failing-input-found' if fl.get('no_input') else ''))
     # known findings: still failing -> print; the witness is replayed natively
     for kf in known:
         still = None
